@@ -440,14 +440,12 @@ class StridedInterval:
             if piece.lower_bound > piece.upper_bound:
                 continue
             for half in piece._nsplit():
-                if half.lower_bound > half.upper_bound:
+                lb = self._unsigned_to_signed(half.lower_bound, self.bits)
+                ub = self._unsigned_to_signed(half.upper_bound, self.bits)
+                if lb > ub:
+                    # the half beyond the north pole begins after the upper bound: it holds no member
                     continue
-                bounds.append(
-                    (
-                        self._unsigned_to_signed(half.lower_bound, self.bits),
-                        self._unsigned_to_signed(half.upper_bound, self.bits),
-                    )
-                )
+                bounds.append((lb, ub))
         return bounds
 
     def _unsigned_bounds(self) -> list[tuple[int, int]]:
